@@ -174,6 +174,7 @@ def plan(tier):
                 for b in range(len(alpha)):
                     units.append((si, ni, (a, b)))
     for ni in range(len(NEWLINES)):
+        units.append(('repeat', ni, None))
         units.append(('bytevalues', ni, None))
         units.append(('scale', ni, None))
         for period in PERIODS:
@@ -217,6 +218,8 @@ def run_unit(unit, tier):
         return run_periodic_unit(*unit[1:])
     if unit[0] == 'bytevalues':
         return run_bytevalue_unit(unit[1])
+    if unit[0] == 'repeat':
+        return run_repeat_unit(unit[1])
     si, ni, prefix = unit
     alpha, maxlen = _scopes(tier)[si]
     name, newline = NEWLINES[ni]
@@ -331,6 +334,55 @@ def run_periodic_unit(ni, period, thorough):
     return acc
 
 
+REPEAT_CALLS = 150
+
+
+def repeat_cases(nlb):
+    a = b'a' * len(nlb)
+    return [a + nlb + a, a + nlb + a + nlb, a, nlb, a + a + nlb + nlb + a,
+            nlb + a, a * 40 + nlb + a * 3, (a + nlb) * 30 + a,
+            b'+new' if len(nlb) == 1 else a * 4 + nlb + a * 2]
+
+
+def check_repeat(data, nlb):
+    """The same input split again and again (both modes, equal but not
+    identical objects): the 150th answer is the first."""
+    first = None
+    for i in range(REPEAT_CALLS):
+        d = bytes(bytearray(data)) if i % 3 == 0 else data
+        k = split_lines(d, nlb, keep_ends=True)
+        b = split_lines(d, nlb, keep_ends=False)
+        if first is None:
+            first = (list(k), list(b))
+            v, nt = check_one(data, nlb)
+            if v:
+                return v
+        elif (k, b) != first:
+            return [('law5-result-depends-on-call-history',
+                     'call pair %d on %r gave %r / %r, the first gave %r'
+                     % (i + 1, data[:40], k[-2:], b[-2:],
+                        (first[0][-2:], first[1][-2:])))]
+    return []
+
+
+def run_repeat_unit(ni):
+    acc = Acc()
+    name, nlb = NEWLINES[ni]
+    for i, data in enumerate(repeat_cases(nlb)):
+        viols = check_repeat(data, nlb)
+        acc.evals += REPEAT_CALLS
+        acc.states += 1
+        acc.transitions += 2 * REPEAT_CALLS
+        acc.validated += 1
+        acc.nontrivial += 1
+        for key, msg in viols:
+            acc.violation('%s:%s:repeat' % (key, name.split('/')[0]),
+                          msg[:300], {'kind': 'repeat', 'ni': ni, 'i': i})
+        acc.outcome('ok-repeat' if not viols else 'violation')
+    acc.sample({'repeated_calls': REPEAT_CALLS, 'newline': name}, 1)
+    return acc
+
+
 def bytevalue_cases(ni):
     """Every byte value (and, for multi-byte newlines, every code point
     0..255 encoded like the newline's own characters) in every position
@@ -416,6 +468,11 @@ def run_scale_unit(ni):
 
 
 def replay(payload):
+    if payload.get('kind') == 'repeat':
+        name, nlb = NEWLINES[payload['ni']]
+        viols = check_repeat(repeat_cases(nlb)[payload['i']], nlb)
+        return [{'key': '%s:%s:repeat' % (k, name.split('/')[0]),
+                 'msg': m[:300]} for k, m in viols]
     if payload.get('kind') == 'periodic':
         name, nlb = NEWLINES[payload['ni']]
         data = periodic_data(nlb, payload['period'], payload['k'],
